@@ -67,7 +67,19 @@ class Calls(Exec):
                 else:
                     args.append(v)
             kwargs = dict(zip(kwnames, vs[1 + len(plain):]))
-            return self.umap(s, fv, lambda s2, g: self.call(s2, g, args, kwargs, node), node)
+            outs = self.umap(s, fv, lambda s2, g: self.call(s2, g, args, kwargs, node), node)
+            # ghost code anchored to this call expression (code mode only): witness bookkeeping after the call
+            if not s.spec and s.frames:
+                c0 = REG.fns.get(s.frame.fnkey)
+                if c0 is not None and c0.ghost_code:
+                    gc = c0.ghost_code.get('call ' + ast.unparse(node))
+                    if gc:
+                        for s9, _v in outs:
+                            for line in gc:
+                                gname, gexpr = [x.strip() for x in line.split('=', 1)]
+                                s9.frame.loc[gname] = self.eval_spec_value(s9, gexpr, s9.frame, old=s9.old, result=_v)
+                                s9.lver += 1
+            return outs
         return self.bind(self.ev_list(nodes, st), after)
 
     def call(self, st, fv, args, kwargs, node):
@@ -691,6 +703,11 @@ class Calls(Exec):
                 if getattr(st, 'spec_assume', False):
                     return VBool(z3.ForAll(qs, IMPL(rng, AND(body, *extra))))
                 return VBool(z3.ForAll(qs, IMPL(AND(rng, *extra), body)))
+            if extra and not getattr(st, 'spec_assume', False):
+                # proving an existential: the auxiliary facts (type invariants, definitional instances such as
+                # body => numshape) hold for every value of the bound variable; they are ambient, not to be proved
+                st.assume(z3.ForAll(qs, AND(*extra)))
+                return VBool(z3.Exists(qs, AND(rng, body)))
             return VBool(z3.Exists(qs, AND(rng, body, *extra)))
         if name == 'holds':
             m = self.ev1(a[0], st)
